@@ -8,6 +8,7 @@ import CoreDhcp.Props.C06
 import CoreDhcp.Props.C07
 import CoreDhcp.Props.C08
 import CoreDhcp.Props.C09
+import CoreDhcp.Props.C10
 import CoreDhcp.Props.C11
 import CoreDhcp.Props.C12
 import CoreDhcp.Props.C13
@@ -56,3 +57,9 @@ open CoreDhcp
 #print axioms C08_holds
 #print axioms C09_holds
 #print axioms C09_frame
+#print axioms C10_holds
+#print axioms C10_accept_iff_wellformed
+#print axioms C10_mapping_is_file
+#print axioms C10_all_or_nothing
+#print axioms C10_own_file
+#print axioms C10_D8_prefix_refuted
